@@ -623,6 +623,12 @@ func (pool *hostConnPool) connect() (err error) {
 		return nil
 	}
 
+	if conn.Closed() {
+		// the connection failed after its handshake and before it got here: HandleError
+		// has already looked for it in the pool and did not find it
+		return ErrConnectionClosed
+	}
+
 	pool.conns = append(pool.conns, conn)
 
 	return nil
